@@ -135,7 +135,8 @@ class Engine:
         alive = self.field_array(st, "$alive")
         st.assume(z3.Not(z3.Select(alive, r)))
         st.heap["$alive"] = z3.Store(alive, r, True)
-        st.heap["$kind"] = z3.Store(self.field_array(st, "$kind"), r, self.schema.class_id(clsname))
+        if not clsname.startswith("$"):
+            st.heap["$kind"] = z3.Store(self.field_array(st, "$kind"), r, self.schema.class_id(clsname))
         return r
 
     # ------------------------------------------------------------------ conversions
@@ -196,7 +197,7 @@ class Engine:
             else:
                 disj.append(z3.Exists(b.binders, z3.And(b.cond, ev == v)))
         body = z3.Or(*disj) if disj else z3.BoolVal(False)
-        st.assume(z3.ForAll([v], z3.Select(s, v) == body))
+        st.define(z3.ForAll([v], z3.Select(s, v) == body))
         return sv_set(s)
 
     def as_list(self, sv, st):
@@ -394,7 +395,8 @@ class Engine:
                 return [(st, None)]
             if isinstance(v, ast.Yield):
                 val = self.eval(v.value, st) if v.value is not None else sv_none()
-                st.bags.append(Bag(list(st.binders), self._local_cond(st), val, tag="line%d" % node.lineno))
+                st.bags.append(Bag(list(st.binders), self._local_cond(st, sv_terms(val)), val,
+                                   tag="line%d" % node.lineno))
                 return [(st, None)]
             if isinstance(v, ast.YieldFrom):
                 src = self.eval(v.value, st)
@@ -469,10 +471,11 @@ class Engine:
             return [(st, None)]
         raise Unsupported("statement %s (line %d)" % (T.__name__, node.lineno))
 
-    def _local_cond(self, st):
-        """Condition of the current point relative to function entry (path condition beyond the entry mark),
-        used as the element condition of a yield."""
-        return z3.And(*st.pc[st.entry_mark:]) if len(st.pc) > st.entry_mark else z3.BoolVal(True)
+    def _local_cond(self, st, extra_terms=()):
+        """Condition under which the current point is reached, relative to function entry: the branch
+        decisions since the entry mark, plus the definitional assumptions (callee postconditions, fresh-set
+        definitions) of every auxiliary constant those decisions (or extra_terms) mention."""
+        return local_cond(st, st.entry_mark, st.entry_serial, extra_terms)
 
     def eval_exc(self, node, st):
         if node is None:
@@ -636,7 +639,7 @@ class Engine:
                 st.assume(z3.And(0 <= i, i < cont.x))
                 new_items = fresh("del", z3.ArraySort(Int, Val))
                 j = fresh("j", Int)
-                st.assume(z3.ForAll([j], z3.Select(new_items, j) == z3.If(j < i, z3.Select(cont.t, j),
+                st.define(z3.ForAll([j], z3.Select(new_items, j) == z3.If(j < i, z3.Select(cont.t, j),
                                                                            z3.Select(cont.t, j + 1))))
                 cont.wb(st, SV("list", new_items, x=cont.x - 1, cls=cont.cls))
                 return
@@ -957,15 +960,15 @@ class Engine:
             x = fresh("x", Val)
             if T is ast.BitOr:
                 res = fresh("U", SetSort)
-                st.assume(z3.ForAll([x], z3.Select(res, x) == z3.Or(z3.Select(sa, x), z3.Select(sb, x))))
+                st.define(z3.ForAll([x], z3.Select(res, x) == z3.Or(z3.Select(sa, x), z3.Select(sb, x))))
                 return sv_set(res)
             if T is ast.Sub:
                 res = fresh("D", SetSort)
-                st.assume(z3.ForAll([x], z3.Select(res, x) == z3.And(z3.Select(sa, x), z3.Not(z3.Select(sb, x)))))
+                st.define(z3.ForAll([x], z3.Select(res, x) == z3.And(z3.Select(sa, x), z3.Not(z3.Select(sb, x)))))
                 return sv_set(res)
             if T is ast.BitAnd:
                 res = fresh("I", SetSort)
-                st.assume(z3.ForAll([x], z3.Select(res, x) == z3.And(z3.Select(sa, x), z3.Select(sb, x))))
+                st.define(z3.ForAll([x], z3.Select(res, x) == z3.And(z3.Select(sa, x), z3.Select(sb, x))))
                 return sv_set(res)
             raise Unsupported("set operator")
         if a.k == "bytes" and T is ast.Add and b.k == "bytes":
@@ -1003,7 +1006,7 @@ class Engine:
     def bytes_concat(self, a, b, st):
         res = fresh("cat", z3.ArraySort(Int, Val))
         i = fresh("i", Int)
-        st.assume(z3.ForAll([i], z3.Select(res, i) == z3.If(i < a.x, z3.Select(a.t, i), z3.Select(b.t, i - a.x))))
+        st.define(z3.ForAll([i], z3.Select(res, i) == z3.If(i < a.x, z3.Select(a.t, i), z3.Select(b.t, i - a.x))))
         return SV("bytes", res, x=a.x + b.x)
 
     def e_Compare(self, node, st):
@@ -1224,7 +1227,7 @@ class Engine:
             ln = z3.If(h > l, h - l, 0)
             res = fresh("slice", z3.ArraySort(Int, Val))
             i = fresh("i", Int)
-            st.assume(z3.ForAll([i], z3.Implies(z3.And(0 <= i, i < ln), z3.Select(res, i) == z3.Select(cont.t, l + i))))
+            st.define(z3.ForAll([i], z3.Implies(z3.And(0 <= i, i < ln), z3.Select(res, i) == z3.Select(cont.t, l + i))))
             return SV(cont.k, res, x=ln, cls=cont.cls)
         if cont.k == "tuple":
             if (lo is None or (lo.k == "int" and z3.is_int_value(lo.t))) and \
@@ -1252,8 +1255,7 @@ class Engine:
             if i == len(gens):
                 v = self.eval(elt, s)
                 # conditions assumed while evaluating (callee posts etc.) are part of the element condition
-                extra = s.pc[len(st.pc):]
-                cond = z3.And(*extra) if extra else z3.BoolVal(True)
+                cond = local_cond(s, len(st.pc), mark0, sv_terms(v))
                 aux = [x for x in consts_since([cond] + sv_terms(v), mark0) if not any(x.eq(y) for y in binders)]
                 return [Bag(binders + aux, cond, v)]
             g = gens[i]
@@ -1420,6 +1422,7 @@ class Engine:
             L = len(st.pc)
             nbags = len(st.bags)
             sub.entry_mark = L
+            sub.entry_serial = serial_mark()
             if isinstance(fi.node, ast.Lambda):
                 val = self.eval(fi.node.body, sub)
                 outs = [(sub, ("return", val))]
@@ -1434,6 +1437,7 @@ class Engine:
             if ctrl is not None and ctrl[0] == "raise":
                 s.env = st.env
                 s.entry_mark = st.entry_mark
+                s.entry_serial = st.entry_serial
                 self.exc_paths.append((s, ctrl[1]))
             elif ctrl is None or ctrl[0] == "return":
                 normal.append((s, ctrl[1] if ctrl else sv_none()))
@@ -1461,6 +1465,7 @@ class Engine:
         if len(normal) == 1:
             s, v = normal[0]
             st.pc = s.pc
+            st.nondec = s.nondec
             st.heap = s.heap
             st.trace = s.trace
             return v
@@ -1516,6 +1521,32 @@ class Engine:
         st.facts.append(Card(s2) >= 0)
         st.facts.append((Card(s) == 0) == (s == EmptySet))
         st.facts.append((Card(s2) == 0) == (s2 == EmptySet))
+
+
+def local_cond(st, mark, serial, extra_terms=()):
+    dec, other = [], []
+    for i in range(mark, len(st.pc)):
+        (other if i in st.nondec else dec).append(st.pc[i])
+    if not other:
+        return z3.And(*dec) if dec else z3.BoolVal(True)
+    aux = {c.get_id() for c in consts_since(dec + list(extra_terms), serial)}
+    other_consts = [(f, {c.get_id() for c in consts_since([f], serial)}) for f in other]
+    chosen = []
+    changed = True
+    while changed:
+        changed = False
+        rest = []
+        for f, cs in other_consts:
+            if cs & aux:
+                chosen.append(f)
+                if not cs <= aux:
+                    aux |= cs
+                changed = True
+            else:
+                rest.append((f, cs))
+        other_consts = rest
+    allc = dec + chosen
+    return z3.And(*allc) if allc else z3.BoolVal(True)
 
 
 def _assigned_names(stmts):
